@@ -3,7 +3,8 @@ package main
 // C09: stop and drain at every point of a service's life, both protocols.
 //   case line:  <proto> <scenario> [params]
 //   scenarios:  stop-at-once | stop-while-binding | stop-before-start | stop-active <nconn> | stop-silent-backend |
-//               stop-backend-down | drain-then-stop <nconn> | stop-twice | stop-after-conn-loss <nconn> (redis) | accept-emfile
+//               stop-backend-down | drain-then-stop <nconn> | stop-twice | stop-stubborn-backend <nconn> (tcp: the backends
+//               say nothing and do not close when their peer has finished) | stop-after-conn-loss <nconn> (redis) | accept-emfile
 //   output:     stop=<ok|HUNG> [drain=<ok|HUNG>] port=<closed|OPEN> clients=<closed|OPEN:n> backends=<closed|OPEN:n>
 //               goroutines=<ok|LEAK:+n> [established=<kept|BROKEN> new=<refused|SERVED>]
 
@@ -111,7 +112,8 @@ func runC09(line string) string {
 	cl.setLayout([][3]int{{0, 8000, 0}, {8001, 16383, 1}})
 	seeds := []string{cl.nodes[0].addr, cl.nodes[1].addr}
 	var echoConns int32
-	if proto == "tcp" { // the TCP processor gets echo servers as backends
+	stubbornRelease := make(chan struct{}) // closed once Stop has returned (or hung): the stubborn backends may go then
+	if proto == "tcp" {                    // the TCP processor gets echo servers as backends
 		seeds = nil
 		for i := 0; i < 2; i++ {
 			ln, _ := net.Listen("tcp", "127.0.0.1:0")
@@ -131,6 +133,22 @@ func runC09(line string) string {
 					go func() {
 						defer atomic.AddInt32(&echoConns, -1)
 						defer c.Close()
+						if sc == "stop-stubborn-backend" {
+							// reads what comes, says nothing, and does not close when its peer has finished: only the
+							// peer closing the connection for good (a reset or the test's end) ends it
+							b := make([]byte, 4096)
+							for {
+								if _, err := c.Read(b); err != nil {
+									if err == io.EOF {
+										select {
+										case <-stubbornRelease:
+										case <-time.After(8 * time.Second):
+										}
+									}
+									return
+								}
+							}
+						}
 						io.Copy(c, c)
 					}()
 				}
@@ -399,7 +417,7 @@ func runC09(line string) string {
 			nw = "served" // descriptors could not be exhausted here: nothing observed
 		}
 		out += "new=" + nw + " "
-	case "stop-active", "drain-then-stop", "stop-silent-backend", "stop-backend-down", "stop-twice":
+	case "stop-active", "drain-then-stop", "stop-silent-backend", "stop-backend-down", "stop-twice", "stop-stubborn-backend":
 		waitListening()
 		settle(20 * time.Millisecond)
 		for i := 0; i < argn(2, 2); i++ {
@@ -459,6 +477,7 @@ func runC09(line string) string {
 		ok = within(4*time.Second, func() { p.Stop() })
 	}
 	out += "stop=" + map[bool]string{true: "ok", false: "HUNG"}[ok]
+	close(stubbornRelease)
 	if blocker != nil {
 		blocker.Close()
 	}
@@ -689,7 +708,7 @@ func init() {
 				}
 			}
 			lines = append(lines, "redis stop-silent-backend 2", "tcp register-after-stop", "redis stop-halfclosed-silent", "redis drain-while-binding", "tcp drain-while-binding", "tcp drain-during-bind", "tcp stop-during-bind",
-				"redis stop-after-conn-loss 3", "redis stop-after-conn-loss 2", "tcp accept-emfile", "redis accept-emfile", "redis stop-during-connect", "tcp stop-hc-probing")
+				"redis stop-after-conn-loss 3", "redis stop-after-conn-loss 2", "tcp accept-emfile", "redis accept-emfile", "redis stop-during-connect", "tcp stop-hc-probing", "tcp stop-stubborn-backend 2")
 			for i := 0; i < 6; i++ {
 				lines = append(lines, fmt.Sprintf("tcp limit-burst %d %d", 1+r.intn(3), 6+r.intn(20)))
 				lines = append(lines, fmt.Sprintf("tcp register-burst %d %d", 1+r.intn(4), 32+r.intn(64)))
